@@ -135,6 +135,9 @@ def setup(M):
     M.contract(Interval, "__contains__", post=contains_post, label="Interval.__contains__")
 
 
+OTHER_ZONES = ["America/New_York", "Europe/Paris", "Asia/Kathmandu", "Australia/Lord_Howe", "Pacific/Apia", "Europe/London"]
+
+
 def _fold_pair(a, b):
     """same tzinfo object and wall-clock order differs from instant order"""
     if not (isinstance(a, dt.datetime) and isinstance(b, dt.datetime)) or a.tzinfo is None or a.tzinfo is not b.tzinfo:
@@ -262,6 +265,23 @@ def run(M, c):
         (iv.start.subtract(**{unit: 1}) if mode != "inv" else iv.start.add(**{unit: 1})) in iv
     except (OverflowError, ValueError):
         pass
+    if not c["date"] and not c["naive"]:
+        # probes expressed in OTHER zones (UTC, a fixed offset, another named zone) around both bounds: the answer
+        # is a matter of instants only, whatever zone x is written in
+        from pvmon.common import us_to_fields
+
+        oz = OTHER_ZONES[(c["u"] // 7) % len(OTHER_ZONES)]
+        lo_, hi_ = sorted((pos(iv.start), pos(iv.end)))
+        for base in (lo_, hi_):
+            for delta in (-3600 * US - 1, -1800 * US, -1, 0, 1, 900 * US, 3600 * US + 1):
+                u = base + delta
+                if not gen.ok_instant(u, 400):
+                    continue
+                for mk in (lambda: gen.mk("UTC", u), lambda: P.DateTime(*us_to_fields(u + 7200 * US), tzinfo=P.FixedTimezone(7200)),
+                           lambda: gen.mk(oz, u)):
+                    x = mk()
+                    x in iv                                      # contract judges
+                M.cls("probe-other-zone", oz, delta)
     if unit == "days" and steps <= 400:
         # direct iteration is by days
         it = list(itertools.islice(iter(iv), steps * n + 5))
